@@ -67,6 +67,20 @@ def oracle(case, io, mo):
     got_flat = [x for x in sp.flat(r) if x[1] > x[0]]
     if [x[:3] for x in exp_flat] != [x[:3] for x in got_flat]:
         return "surviving non-zero leaves are not the clipped originals in the original order"
+    # zero-length events (children of sequences): inside [start, end) kept at their offset, outside [start, end] gone;
+    # exactly on the end edge the window [start, end) does not decide (the correspondence pins the code's choice)
+    if t[0] != "L" and e > s:
+        from props.C05 import zero_leaves
+        zt = zero_leaves(t, seq_only=True)
+        zl = {l for (_, l) in zt}
+        zr = sorted((a, l) for (a, l) in zero_leaves(r, seq_only=True) if l in zl)
+        must = sorted((a - s, l) for (a, l) in zt if s < a < e)
+        may = [(a - s, l) for (a, l) in zt if a == e or a == s]   # on an edge: may go with a container that ends / starts there
+        if any(x not in zr for x in must):
+            # a zero-length event inside the window may vanish only together with a fully removed container: not possible inside the window
+            return f"zero-length events inside the window were lost: expected {must}, got {zr}"
+        if any(x not in must and x not in may for x in zr):
+            return f"zero-length events outside the window survived: {[x for x in zr if x not in must and x not in may]}"
     return None
 
 
